@@ -11,7 +11,7 @@
     interleavings a multi-threaded runtime can produce between the two write-lock sections. *)
 
 From Coq Require Import List Arith Bool.
-From DC Require Import Keyspace KeyspaceProofs.
+From DC Require Import Keyspace KeyspaceProofs KeyspaceLife.
 Import ListNotations.
 
 (** Every task to which [get_or_create_keyspace] has returned holds the instance that is in
@@ -94,6 +94,35 @@ Theorem C18_legacy_overwrite_refuted :
     exists m, later_lookup s = Some m /\ ~ In i (later_set s) /\ returned s i <> Some m.
 Proof. exact legacy_overwrite_refuted. Qed.
 
+(** "For the life of the node": the group's own background task (the periodic tombstone purge)
+    ticking anywhere in the trace, whatever its outcome ([KeyspaceLife.v]: it clones the map under
+    the read lock and only sends messages to the instances).  Every task that has a mailbox holds
+    the instance in the map, the entry never changes, every acknowledged mutation is in the set a
+    lookup at any later time returns. *)
+Theorem C18_life_of_the_node :
+  forall k es,
+    (forall i m, returned (krun es (init k)) i = Some m -> later_lookup (krun es (init k)) = Some m) /\
+    (forall more m, later_lookup (krun es (init k)) = Some m ->
+                    later_lookup (krun (es ++ more) (init k)) = Some m) /\
+    (forall more i, is_acked (krun es (init k)) i = true ->
+       exists m, later_lookup (krun (es ++ more) (init k)) = Some m /\
+                 In i (later_set (krun (es ++ more) (init k)))).
+Proof.
+  intros k es. split; [|split].
+  - intros i m. exact (life_one_instance k es i m).
+  - intros more m. exact (life_map_never_changes k es more m).
+  - intros more i. exact (life_acked_in_later_lookup k es more i).
+Qed.
+
+(** A purge error path that loads the states from storage again (seeded change C18/F) violates
+    the property: the mutation task 0 sends through the mailbox it obtained before the reload is
+    acknowledged and missing from the registered set. *)
+Theorem C18_reload_after_failed_purge_refuted :
+  let s := step 0 (reload_step (run [0; 0; 0; 0] (init 1))) in
+  is_acked s 0 = true /\
+  exists m, later_lookup s = Some m /\ ~ In 0 (later_set s) /\ returned s 0 <> Some m.
+Proof. exact reload_refuted. Qed.
+
 (** Non-vacuity: three tasks, a schedule in which all three miss the lookup and spawn an actor;
     task 1 wins, tasks 0 and 2 drop theirs; all three mutations end in instance 1's set. *)
 Example C18_nonvacuous :
@@ -103,6 +132,14 @@ Example C18_nonvacuous :
   is_acked s 0 = true /\ is_acked s 1 = true /\ is_acked s 2 = true /\
   later_lookup s = Some 1 /\ later_set s = [2; 0; 1] /\
   dropped s = [2; 0] /\ fresh s = 3 /\ no_inserted s = true /\ ts_consistent s = true.
+Proof. vm_compute. repeat split; reflexivity. Qed.
+
+(** Non-vacuity with purge ticks in the trace: the same schedule with a tick after every step. *)
+Example C18_nonvacuous_life :
+  let es := flat_map (fun i => [KTask i; KPurge]) [0; 1; 2; 0; 1; 2; 1; 0; 1; 1; 2; 0; 2] in
+  let s := krun es (init 3) in
+  is_acked s 0 = true /\ is_acked s 1 = true /\ is_acked s 2 = true /\
+  later_lookup s = Some 1 /\ later_set s = [2; 0; 1].
 Proof. vm_compute. repeat split; reflexivity. Qed.
 
 (** Non-vacuity of the poll-level model: the executor's D12 schedule (polls 0 1 0 0 1, i.e.
